@@ -329,7 +329,17 @@ def walk(design, mname, path, uf, devices, stack, strict_extra=True):
                 n = d[3]
                 if n < 1:
                     raise Invalid("array_size", d[1])
-                if ptype[0] == "bundle" or isinstance(val, dict):
+                if ptype[0] == "bundle" and isinstance(val, dict):
+                    # bundle-valued array port: member by member, each of the member's own width (the same bits to every
+                    # element) or n times that (element k takes the k-th group of bits) - as for scalar array ports
+                    leaves = dict(bundle_leaves(design, ptype[1]))
+                    for k, el in enumerate(els):
+                        per = {}
+                        for mem, bits in val.items():
+                            w = leaves.get(mem)
+                            per[mem] = bits[k * w : (k + 1) * w] if (w and len(bits) == w * n and n > 1) else bits
+                        connect(uf, sc, path + (el,), pname, ptype, per, d[1])
+                elif ptype[0] == "bundle" or isinstance(val, dict):
                     for el in els:
                         connect(uf, sc, path + (el,), pname, ptype, val, d[1])
                 else:
